@@ -139,7 +139,11 @@ def droppedX (fx : FieldX) : ValueX → Bool
 
 /-! ### the environment `str.format` sees -/
 
-def isPlainKey (n : Str) : Bool := !n.isEmpty && n.all isIdentChar
+/-- a Python identifier (what `parse_format_string` extracts and `values.get` is asked for) -/
+def isPlainKey (n : Str) : Bool :=
+  match n with
+  | [] => false
+  | c :: _ => !c.isDigit && n.all isIdentChar
 
 def lookupX (inputs : List (Str × ValueX)) (n : Str) : Option ValueX :=
   (inputs.find? (fun e => e.1 == n)).map (·.2)
